@@ -714,11 +714,7 @@ Proof.
 Qed.
 
 Lemma write_many_lf_wf : forall c ts lens d, wf_dir d -> wf_dir (write_many_lf c ts lens d).
-Proof.
-  intros. unfold write_many_lf. cbv zeta. destruct (_ <=? _).
-  - apply drename_wf, open_file_wf. auto.
-  - apply dappend_wf, open_file_wf, open_file_wf. auto.
-Qed.
+Proof. intros. unfold write_many_lf. apply write_many_wf. auto. Qed.
 
 Lemma step_wf : forall d o, wf_dir d -> wf_dir (step d o).
 Proof.
@@ -763,14 +759,6 @@ Lemma write_many_rf_frame : forall c lens d,
 Proof.
   intros c lens d Qc. unfold write_many_rf. cbv zeta. destruct (_ <=? _).
   - apply open_file_frame. auto.
-  - rewrite dappend_frame, !open_file_frame by auto. reflexivity.
-Qed.
-
-Lemma write_many_lf_frame : forall c ts lens d,
-  q (cur_name c) = false -> q (arch_name c ts) = false -> fq (write_many_lf c ts lens d) = fq d.
-Proof.
-  intros c ts lens d Qc Qa. unfold write_many_lf. cbv zeta. destruct (_ <=? _).
-  - rewrite drename_frame by auto. apply open_file_frame. auto.
   - rewrite dappend_frame, !open_file_frame by auto. reflexivity.
 Qed.
 
@@ -972,10 +960,8 @@ Qed.
    loggers whose names are not prefix-related to its own, and rule dumps *)
 Definition compat (c : logcfg) (o : op) : Prop :=
   match o with
-  | OWrite c' _ _ | OWriteRF c' _ =>
+  | OWrite c' _ _ | OWriteRF c' _ | OWriteLF c' _ _ =>
       c' = c \/ (lmatch c' (cur_name c') = true /\ incomparable (lname c) (lname c') = true)
-  | OWriteLF c' _ _ =>   (* only ANOTHER logger's write in a directory whose listing fails *)
-      c' <> c /\ lmatch c' (cur_name c') = true /\ incomparable (lname c) (lname c') = true
   | ODump _ _ _ => incomparable (lname c) Consts.rules_dump_search_prefix = true
   | ODumpLF => True
   end.
@@ -983,7 +969,7 @@ Definition compat (c : logcfg) (o : op) : Prop :=
 Definition Inv (c : logcfg) (d : dir) : Prop := LInv c d /\ SInv c d.
 
 Lemma foreign_frame : forall c o d,
-  compat c o -> (match o with OWrite c' _ _ | OWriteRF c' _ => c' <> c | _ => True end) ->
+  compat c o -> (match o with OWrite c' _ _ | OWriteRF c' _ | OWriteLF c' _ _ => c' <> c | _ => True end) ->
   lfiles c (step d o) = lfiles c d.
 Proof.
   intros c [c' ts lens|c' lens|c' ts lens|m ts sz|] d Hc Hne; simpl in *; auto.
@@ -995,10 +981,10 @@ Proof.
     unfold lfiles. apply (write_many_rf_frame (lmatch c)).
     unfold lmatch in *. rewrite incomparable_sym in Hi.
     eapply incomparable_disjoint; eauto.
-  - destruct Hc as [_ [Hw Hi]]. rewrite incomparable_sym in Hi.
-    unfold lfiles. apply (write_many_lf_frame (lmatch c)); unfold lmatch in *.
-    + eapply incomparable_disjoint; eauto.
-    + eapply incomparable_disjoint; eauto. apply arch_matches.
+  - destruct Hc as [->|[Hw Hi]]; [contradiction|].
+    unfold lfiles, write_many_lf. apply (write_many_frame (lmatch c)); auto.
+    intros n Hn. unfold lmatch in *. rewrite incomparable_sym in Hi.
+    eapply incomparable_disjoint; eauto.
   - unfold lfiles. apply (write_all_frame (lmatch c)).
     + unfold lmatch. rewrite incomparable_sym in Hc.
       eapply incomparable_disjoint; eauto. apply dump_name_prefix.
@@ -1041,9 +1027,10 @@ Proof.
     + apply (frame_inv c d); auto.
       * apply step_wf. apply I.
       * apply foreign_frame; auto.
-  - apply (frame_inv c d); auto.
+  - destruct (cfg_eq_dec c' c) as [->|Hne]; [apply Own|].
+    apply (frame_inv c d); auto.
     + apply step_wf. apply I.
-    + apply foreign_frame; simpl; auto.
+    + apply foreign_frame; auto.
   - apply (frame_inv c d); auto.
     + apply step_wf. apply I.
     + apply foreign_frame; simpl; auto.
@@ -1260,8 +1247,8 @@ Proof.
     assert (Q : forall n, lmatch c' n = true -> is_dump n = false).
     { intros n Hn. destruct (is_dump n) eqn:E; auto. apply is_dump_prefix in E.
       unfold lmatch in Hn. pose proof (incomparable_disjoint _ _ _ Hi Hn). congruence. }
-    unfold dcount in *. rewrite cnt_entries in *.
-    rewrite (write_many_lf_frame is_dump); auto. apply Q. apply arch_matches.
+    unfold dcount, write_many_lf in *. rewrite cnt_entries in *.
+    rewrite (write_many_frame is_dump); auto.
   - subst. split; [apply write_all_wf; auto|]. apply write_all_count; auto.
 Qed.
 
@@ -1314,16 +1301,14 @@ Proof.
   intros. unfold ev_flush. destruct (evq s =? 0); [lia|]. destruct (_ <=? _); simpl; lia.
 Qed.
 
-(* the operations of the event theorems: everything but a flush whose directory listing fails *)
-Definition ev_known_class (o : evop) : bool := match o with ETickLF _ => true | _ => false end.
-
-Lemma ev_step_count : forall cap s o, ev_known_class o = false ->
-  ev_count (ev_step cap s o) <= N.max (ev_count s) cap.
+Lemma ev_step_count : forall cap s o, ev_count (ev_step cap s o) <= N.max (ev_count s) cap.
 Proof.
-  intros cap s [n|ts|ts| |] K; simpl; try discriminate.
+  intros cap s [n|ts|ts| |]; simpl.
   - unfold ev_count. rewrite ev_push_dir. lia.
   - unfold ev_tick. pose proof (ev_flush_count cap ts s). destruct (evphase s); auto.
     unfold ev_count in *. simpl. lia.
+  - unfold ev_tick_lf, ev_flush_lf, ev_count.
+    destruct (evphase s); destruct (evq s =? 0); simpl; lia.
   - unfold ev_stop, ev_count. destruct (evphase s); simpl; lia.
   - unfold ev_count. simpl. lia.
 Qed.
@@ -1341,13 +1326,12 @@ Proof.
 Qed.
 
 Lemma ev_trace_bound : forall cap ops s b,
-  Forall (fun o => ev_known_class o = false) ops ->
   ev_count s <= b -> cap <= b -> evq s <= Consts.event_queue_bound ->
   Forall (fun s' => ev_count s' <= b /\ evq s' <= Consts.event_queue_bound) (ev_trace cap s ops).
 Proof.
-  induction ops; intros s b HK Hc Hb Hq; simpl; constructor; inversion HK; subst.
-  - split; [|apply ev_step_q; auto]. pose proof (ev_step_count cap s a H1). lia.
-  - apply IHops; auto; [|apply ev_step_q; auto]. pose proof (ev_step_count cap s a H1). lia.
+  induction ops; intros s b Hc Hb Hq; simpl; constructor.
+  - split; [|apply ev_step_q; auto]. pose proof (ev_step_count cap s a). lia.
+  - apply IHops; auto; [|apply ev_step_q; auto]. pose proof (ev_step_count cap s a). lia.
 Qed.
 
 (* at the cap a flush -- the periodic one AND the one of the stop pass -- drops the queued events
@@ -1453,17 +1437,15 @@ Proof.
 Qed.
 
 Lemma event_cap_history : forall cap ops s,
-  Forall (fun o => ev_known_class o = false) ops ->
   ev_count s <= cap -> evq s <= Consts.event_queue_bound ->
   Forall (fun s' => ev_count s' <= cap /\ evq s' <= Consts.event_queue_bound) (ev_trace cap s ops).
 Proof. intros. apply ev_trace_bound; auto. lia. Qed.
 
 Lemma event_never_grows_over : forall cap ops s,
-  Forall (fun o => ev_known_class o = false) ops ->
   evq s <= Consts.event_queue_bound ->
   Forall (fun s' => ev_count s' <= N.max (ev_count s) cap) (ev_trace cap s ops).
 Proof.
-  intros cap ops s HK Hq.
+  intros cap ops s Hq.
   apply (Forall_impl' (fun s' => ev_count s' <= N.max (ev_count s) cap /\ evq s' <= Consts.event_queue_bound));
     [tauto|]. apply ev_trace_bound; auto; lia.
 Qed.
@@ -1517,53 +1499,33 @@ Proof.
   split; [vm_compute; discriminate | vm_compute; reflexivity].
 Qed.
 
-(* ------------------------------------------------------------------ known class: the directory listing fails *)
-(* F-C19a / F-C19b: an entry that cannot be stat()-ed makes get_log_files / get_files fail *)
-Definition log_known_class (c : logcfg) (o : op) : bool :=
-  match o with OWriteLF c' _ _ => if cfg_eq_dec c' c then true else false | _ => false end.
-
-Lemma compat_not_known : forall c o, compat c o -> log_known_class c o = false.
+(* ------------------------------------------------------------------ the directory listing fails *)
+(* Findings F-C19a / F-C19b, repaired in /repo 9e49374 and 7e4ec27.  The behaviour BEFORE the repairs is
+   kept as [write_many_lf_before_fix] / [ev_flush_lf_before_fix]; the two lemmas below document why it
+   broke the bounds (they are not property theorems any more). *)
+Lemma log_count_unstatable_refuted_before_fix :
+  exists c ws, wf_cfg c /\
+    lmax_count c < lcount c (fold_left (fun d w => write_many_lf_before_fix c (fst w) (snd w) d) ws []).
 Proof.
-  intros c [c' ts lens|c' lens|c' ts lens|m ts sz|] H; simpl in *; auto.
-  destruct (cfg_eq_dec c' c); auto. destruct H as [H _]. contradiction.
+  exists ex_cfg, [([49], [120]); ([50], [1]); ([51], [120]); ([52], [1]); ([53], [1])].
+  split; [split; vm_compute; [reflexivity|discriminate]|]. vm_compute. reflexivity.
 Qed.
 
-(* the count bound FAILS for a logger whose directory listing fails: every roll archives, none trims *)
-Lemma log_count_unstatable_refuted :
-  exists c ops, wf_cfg c /\ Forall (fun o => log_known_class c o = true) ops /\
-                lmax_count c < lcount c (run [] ops).
+Lemma event_cap_unstatable_refuted_before_fix :
+  exists cap s, ev_count s <= cap /\
+    cap < ev_count (ev_flush_lf_before_fix [50] (N.iter 1 ev_push1 (ev_flush_lf_before_fix [49] (N.iter 1 ev_push1 s)))).
 Proof.
-  exists ex_cfg, [OWriteLF ex_cfg [49] [120]; OWriteLF ex_cfg [50] [1]; OWriteLF ex_cfg [51] [120];
-                  OWriteLF ex_cfg [52] [1]; OWriteLF ex_cfg [53] [1]].
-  split; [split; vm_compute; [reflexivity|discriminate]|]. split.
-  - repeat (apply Forall_cons; [simpl; destruct (cfg_eq_dec ex_cfg ex_cfg); [reflexivity|contradiction]|]).
-    apply Forall_nil.
-  - vm_compute. reflexivity.
+  exists 1, {| evdir := []; evq := 0; evphase := Running |}. split; vm_compute; [discriminate|reflexivity].
 Qed.
 
-(* the size bound survives it: an archived file is never appended to *)
-Lemma write_many_lf_sinv : forall c ts lens d,
-  lmatch c (cur_name c) = true -> SInv c d -> SInv c (write_many_lf c ts lens d).
+(* after the repairs a flush whose listing fails never touches the directory *)
+Lemma ev_tick_lf_dir : forall ts s, evdir (ev_tick_lf ts s) = evdir s.
 Proof.
-  intros c ts lens d Hc S. apply SInv_iff. apply SInv_iff in S.
-  unfold write_many_lf. cbv zeta. pose proof (P_open_file c d S) as S0.
-  destruct (lmax_size c <=? cur_size c (open_file c d)) eqn:E.
-  - apply P_drename; auto.
-  - apply N.leb_gt in E. rewrite (open_file_id c (open_file c d)) by apply open_file_has.
-    unfold dappend. destruct (dfind (cur_name c) (open_file c d)) eqn:F; auto.
-    apply P_dput; auto. intros _. unfold cur_size in E. rewrite F in E.
-    unfold sz_ok, esize, elast in *. simpl in *. lia.
+  intros. unfold ev_tick_lf, ev_flush_lf. destruct (evphase s); destruct (evq s =? 0); reflexivity.
 Qed.
 
-Lemma event_cap_unstatable_refuted :
-  exists cap ops s, ev_count s <= cap /\ evq s = 0 /\ Forall (fun o => ev_known_class o = true \/ exists n, o = EPush n) ops /\
-                    cap < ev_count (last (ev_trace cap s ops) s).
-Proof.
-  exists 1, [EPush 1; ETickLF [49]; EPush 1; ETickLF [50]], {| evdir := []; evq := 0; evphase := Running |}.
-  split; [vm_compute; discriminate|]. split; [reflexivity|]. split.
-  - repeat (apply Forall_cons; [simpl; first [left; reflexivity | right; eexists; reflexivity]|]). apply Forall_nil.
-  - vm_compute. reflexivity.
-Qed.
+Lemma write_many_lf_is_write_many : forall c ts lens d, write_many_lf c ts lens d = write_many c ts lens d.
+Proof. reflexivity. Qed.
 
 (* a rule dump whose listing fails is skipped: nothing is written, nothing removed *)
 Lemma dump_listing_failure_skips : forall d, step d ODumpLF = d.
